@@ -21,8 +21,18 @@ CLAIMS = {
         note="substdio_get/substdio_put are replaced by the monitors (one byte per read, so every chunking is covered); "
              "safewrite is assumed not to return on failure (it exits through dropped()).",
         design_ref="DESIGN.md section 5 C06"),
+    "C05": dict(
+        text="Proof (CBMC loop contract on the unmodified qmail-smtpd.c blast()/put()): for every byte stream after DATA, of "
+             "any length and however it is split into network reads, the bytes handed to the queue are exactly those a "
+             "reference decoder written from the property produces (CR LF -> LF, one leading dot removed, bare CR kept), "
+             "blast returns exactly at CR LF . CR LF and reads nothing beyond it, and a LF not preceded by CR leads only "
+             "to the 451 refusal with nothing further read or stored.",
+        note="substdio_get on the connection is a stub returning one arbitrary byte (saferead exits on EOF/timeout); "
+             "qmail_put is a recording stub. DATA streams < 2 GiB. The round-trip with this package's own client is the "
+             "composition with the C06 monitor (reference level, hand argument).",
+        design_ref="DESIGN.md section 5 C05"),
 }
 
 NOT_APPLICABLE = {p: PENDING for p in
-                  ["C01", "C02", "C03", "C04", "C05", "C07", "C08", "C09", "C10", "C11", "C12", "C13", "C14", "C15",
+                  ["C01", "C02", "C03", "C04", "C07", "C08", "C09", "C10", "C11", "C12", "C13", "C14", "C15",
                    "C16", "C17", "C19", "C20"]}
